@@ -297,14 +297,32 @@ def check_findings(case):
     want = sorted([t for t in allf if t[2] > 30], key=lambda t: -t[2])
     n = len(want)
     nshow = n if full else min(10, n)
+    outputs = {}
+    if case.get("via") == "command":
+        from codelimit.common.Configuration import Configuration
+        from codelimit.common.report.ReportWriter import ReportWriter
+
+        from vf.harness import cli, tree
+
+        with tree.temp_tree({".codelimit_cache/codelimit.json": ReportWriter(report).to_json()}) as root:
+            for fmt in ("text", "markdown"):
+                res = cli.run_findings(root, ".", full, fmt)
+                if res.exc:
+                    return (f"findings_command:{fmt}:{res.exc[0]}", res.exc[1])
+                if res.code != 0:
+                    return (f"findings_command:{fmt}:exit", f"findings_command exit {res.code}\n{res.out}")
+                outputs[fmt] = res.out
     for fmt in ("text", "markdown"):
-        if fmt == "text":
-            r = call_sut(render, lambda c: format_text.print_findings(c, report, full))
+        if fmt in outputs:
+            out = outputs[fmt]
         else:
-            r = call_sut(render, lambda c: format_markdown.print_findings(report, c, full))
-        if r[0] == "exc":
-            return (f"render:{fmt}:{r[1]}", r[2])
-        out = r[1]
+            if fmt == "text":
+                r = call_sut(render, lambda c: format_text.print_findings(c, report, full))
+            else:
+                r = call_sut(render, lambda c: format_markdown.print_findings(report, c, full))
+            if r[0] == "exc":
+                return (f"render:{fmt}:{r[1]}", r[2])
+            out = r[1]
         try:
             shown, more = parse_findings_text(out) if fmt == "text" else parse_findings_markdown(out, repo)
         except ValueError as e:
@@ -403,7 +421,7 @@ def findings_cases(draw):
     files = [{"path": f"d{i}/f{i}.py" if i % 2 else f"f{i}.js", "language": "Python" if i % 2 else "JavaScript", "lengths": []} for i in range(nfiles)]
     for v in allv:
         files[draw(st.integers(0, nfiles - 1))]["lengths"].append(v)
-    return {"kind": "findings", "files": files, "full": draw(st.booleans()), "repo": draw(st.booleans())}
+    return {"kind": "findings", "files": files, "full": draw(st.booleans()), "repo": draw(st.booleans()), "via": draw(st.sampled_from(["api"] * 7 + ["command"]))}
 
 
 def _changed(case):
@@ -432,7 +450,7 @@ def gen_overview(col, seed, n):
 def gen_findings(col, seed, n):
     def body(case):
         nf = sum(1 for f in case["files"] for v in f["lengths"] if v > 30)
-        labels = ["findings", "full" if case["full"] else "not-full", "repo" if case["repo"] else "no-repo", "n>10" if nf > 10 else "n==10" if nf == 10 else "n<10"]
+        labels = ["findings", "full" if case["full"] else "not-full", "repo" if case["repo"] else "no-repo", "n>10" if nf > 10 else "n==10" if nf == 10 else "n<10", f"via:{case.get('via', 'api')}"]
         col.eval(case, nontrivial=nf > 10, labels=labels)
 
     run_given(body, findings_cases(), seed, n)
